@@ -300,10 +300,15 @@ class RunTaskHandler(StabilizeHandler[RunTask]):
                     elapsed = time.monotonic() - existing_start
                     if elapsed < stale_threshold_s:
                         logger.debug(
-                            "Ignoring duplicate RunTask for %s - already executing (%.1fs)",
+                            "RunTask for %s deferred - already executing (%.1fs)",
                             task_model.name,
                             elapsed,
                         )
+                        # Not necessarily a duplicate: the other execution may already have
+                        # committed its result (e.g. SUSPENDED) without having left this table
+                        # yet, and this message may be the resume that a signal queued meanwhile.
+                        # Dropping it would strand the task; look at it again shortly.
+                        self.queue.push(message, self.retry_delay)
                         return
                     else:
                         logger.warning(
